@@ -38,8 +38,11 @@ ASSUMPTIONS = [
     "valued by the event must not influence the value (all its values are tried)",
     "'otherwise refuses with unidentifiable': completeness of the refusal is not checked (no independent identifiability "
     "decision procedure for counterfactual events); only that the refusal is the Unidentifiable exception and nothing else",
-    "termination of the model is by fuel (2|V| + |event| + 4); 'the fuel is never exhausted' is proved only in part "
-    "(Props/C07.lean) and otherwise checked on every generated input (an exhausted fuel would be a correspondence disagreement)",
+    "termination: the model recurses on a fuel (2|V| + |event| + 4); that the fuel is never exhausted is now a THEOREM "
+    "(Props/C07.lean idstar_terminates / idstar_never_out_of_fuel / idstar_outcomes) for well-formed graphs without self-loop "
+    "edges and well-formed events (GoodEv: keys are variables of the graph with consistent subscript sets), every iteration "
+    "order; events with a variable outside the graph or with contradictory subscripts (x and x' in one subscript set) are "
+    "outside that theorem and are covered by the correspondence only",
     "Product.safe orders factors by a partial key with ties in set-iteration order: factor order is not modelled, products "
     "are compared as multisets",
     "known findings: keys by minimal shrunk events did not converge (30 minimal forms after ~150 000 cases, a new one every "
